@@ -167,6 +167,29 @@ def lemma_check(pid):
             'output': (r.stdout + r.stderr).strip()[-400:], 'missing': missing}
 
 
+def engine_crosscheck():
+    """the CPython cross-check of the engine (xcheck/xcheck.py), cached by the hash of the engine and snippet sources: a model of a
+    python / numpy operation that excludes what CPython computes is a checker failure (exit 3), never a verdict"""
+    import hashlib
+    import subprocess
+    h = hashlib.sha256()
+    for f in sorted(glob.glob(os.path.join(HERE, 'pyvc', '*.py')) + glob.glob(os.path.join(HERE, 'xcheck', '*.py')) + glob.glob(os.path.join(HERE, 'xcheck', 'snippets', '*.py'))):
+        h.update(open(f, 'rb').read())
+    key = h.hexdigest()[:16]
+    cache = os.path.join(HERE, '.cache', 'xcheck-%s.json' % key)
+    if os.path.exists(cache):
+        return load_json(cache, None)
+    r = subprocess.run([sys.executable, os.path.join(HERE, 'xcheck', 'xcheck.py')], capture_output=True, text=True)
+    last = ([l for l in r.stdout.splitlines() if l.startswith('xcheck:')] or [''])[-1]
+    out = {'ok': r.returncode == 0 and bool(last), 'summary': last, 'details': [l[:240] for l in r.stdout.splitlines() if l.startswith(('DIFFERENT', 'crash', 'raises', 'no-path'))][:10],
+           'what': 'xcheck/xcheck.py: every snippet run by CPython and by the engine on symbolic inputs constrained to the same values; same = proved equal, loose = the model admits the CPython result without forcing it'}
+    if out['ok']:
+        os.makedirs(os.path.dirname(cache), exist_ok=True)
+        with open(cache, 'w') as f:
+            json.dump(out, f)
+    return out
+
+
 def scratch_dir():
     d = os.path.join('/var/tmp', 'pyvc-%d' % os.getpid())
     os.makedirs(d, exist_ok=True)
@@ -391,6 +414,9 @@ def check(pid, tier, seed, args):
     lem = lemma_check(pid)
     if lem is not None and not lem['ok']:
         errors.append(('lemmas', lem['output'] + ' missing=%s' % lem['missing']))
+    xc = engine_crosscheck()
+    if xc is not None and not xc.get('ok'):
+        errors.append(('engine cross-check', "%s %s" % (xc.get('summary'), xc.get('details'))))
 
     # ---- report
     for full, kf in known_hit:
@@ -447,6 +473,8 @@ def check(pid, tier, seed, args):
     }
     if lem is not None:
         cov['lemmas'] = lem
+    if xc is not None:
+        cov['engine_crosscheck'] = xc
     if selftest is not None:
         cov['mutation_selftest'] = selftest
     if standin:
